@@ -61,12 +61,19 @@ static void watchdog(int sec)
 	setitimer(ITIMER_VIRTUAL, &it, NULL);
 }
 
+static long cmp_scale;	/* N <n> <scale>: 0 = the comparator answers -1 / 0 / 1, else (a - b) * scale */
+
 static int compare(const struct iv_avl_node *_a, const struct iv_avl_node *_b)
 {
 	const struct node *a = iv_container_of(_a, struct node, an);
 	const struct node *b = iv_container_of(_b, struct node, an);
 
 	ncompare++;
+	if (cmp_scale != 0) {
+		/* any negative / positive value is a valid answer of a comparator */
+		long d = ((long)a->key - (long)b->key) * cmp_scale;
+		return d < -2000000000L ? -2000000000 : d > 2000000000L ? 2000000000 : (int)d;
+	}
 	if (a->key < b->key)
 		return -1;
 	if (a->key > b->key)
@@ -212,8 +219,8 @@ static void dump(const char *op, int n, int key, int ret, int chg)
 {
 	int ok;
 
-	fprintf(out, "{\"op\":\"%s\",\"n\":%d,\"key\":%d,\"ret\":%d,\"chg\":%d,\"root\":%d",
-		op, n, key, ret, chg, id_of(tree.root));
+	fprintf(out, "{\"op\":\"%s\",\"n\":%d,\"key\":%d,\"ret\":%d,\"chg\":%d,\"sc\":%ld,\"root\":%d",
+		op, n, key, ret, chg, cmp_scale, id_of(tree.root));
 	dump_field("left", 0);
 	dump_field("right", 1);
 	dump_field("parent", 2);
@@ -267,6 +274,7 @@ int main(int argc, char *argv[])
 			int i;
 			int n = (int)strtol(s, &s, 10);
 
+			cmp_scale = strtol(s, &s, 10);
 			if (n < 1 || n > MAXN)
 				die("bad N", lineno);
 			free(nodes);
